@@ -96,7 +96,13 @@ impl Compile for NumberLoop {
 
         result.append(&mut val_start);
 
-        result.push(instruction!(store_fast loop_identity));
+        if self.name_is_collision {
+            // the counter reuses a variable that is already visible in this function:
+            // write to that variable, wherever it lives, instead of shadowing it.
+            result.push(instruction!(store loop_identity));
+        } else {
+            result.push(instruction!(store_fast loop_identity));
+        }
 
         result.append(&mut val_end);
 
